@@ -24,7 +24,7 @@ import (
 
 func VerifHarness_C17_Balances() {
 	zzinv.Install()
-	k, _ := symKeeper()
+	k, _ := zzvSymKeeper()
 	req := &types.QueryBalancesRequest{}
 	zz.NondetInto("req", req)
 	req.Pagination = nil
@@ -63,12 +63,12 @@ func VerifHarness_C17_Balances() {
 
 // denomLemmas: the two prefix-freedom lemmas proved at byte level by
 // VerifHarness_C14_ParsersOnValidDenom, instantiated for one stored (valid) batch denom.
-func denomLemmas(denom, classID, projectID string) {
+func zzvDenomLemmas(denom, classID, projectID string) {
 	zz.Assume(strings.HasPrefix(denom, classID+"-") == (base.GetClassIDFromBatchDenom(denom) == classID))
 	zz.Assume(strings.HasPrefix(denom, projectID+"-") == (base.GetProjectIDFromBatchDenom(denom) == projectID))
 }
 
-func sameTime(a *gogotypes.Timestamp, b *timestamppb.Timestamp) bool {
+func zzvSameTime(a *gogotypes.Timestamp, b *timestamppb.Timestamp) bool {
 	if a == nil || b == nil {
 		return a == nil && b == nil
 	}
@@ -76,7 +76,7 @@ func sameTime(a *gogotypes.Timestamp, b *timestamppb.Timestamp) bool {
 }
 
 // batchInfoOK: the returned item is the stored batch with that denom, field by field.
-func batchInfoOK(b *types.BatchInfo, row *api.Batch, proj *api.Project) bool {
+func zzvBatchInfoOK(b *types.BatchInfo, row *api.Batch, proj *api.Project) bool {
 	// the issuer is returned as an address string that decodes to the stored bytes (some
 	// queries echo the request string, others re-encode: both denote the stored address)
 	issuerOK := zz.Merged(func() bool {
@@ -85,12 +85,12 @@ func batchInfoOK(b *types.BatchInfo, row *api.Batch, proj *api.Project) bool {
 	})
 	return zz.And(zz.And(issuerOK, b.ProjectId == proj.Id),
 		zz.And(zz.And(b.Metadata == row.Metadata, b.Open == row.Open),
-			zz.And(sameTime(b.StartDate, row.StartDate), zz.And(sameTime(b.EndDate, row.EndDate), sameTime(b.IssuanceDate, row.IssuanceDate)))))
+			zz.And(zzvSameTime(b.StartDate, row.StartDate), zz.And(zzvSameTime(b.EndDate, row.EndDate), zzvSameTime(b.IssuanceDate, row.IssuanceDate)))))
 }
 
 // checkBatchList: soundness, field fidelity, no duplicates, and completeness for an arbitrary
 // batch key, for a list of batches against the filter want(batch row, its project row).
-func checkBatchList(name string, got []*types.BatchInfo, want func(row *api.Batch, proj *api.Project) bool, lemma func(denom string)) {
+func zzvCheckBatchList(name string, got []*types.BatchInfo, want func(row *api.Batch, proj *api.Project) bool, lemma func(denom string)) {
 	for i, b := range got {
 		var row api.Batch
 		found := zz.OrmLookup0(zzinv.TBatch, "Denom", &row, b.Denom)
@@ -100,7 +100,7 @@ func checkBatchList(name string, got []*types.BatchInfo, want func(row *api.Batc
 			lemma(b.Denom)
 		}
 		zz.Assert(zz.And(zz.And(found, pf), want(&row, &proj)), "C17 "+name+" returns only batches that satisfy the filter")
-		zz.Assert(batchInfoOK(b, &row, &proj), "C17 "+name+" returns the stored fields of each batch")
+		zz.Assert(zzvBatchInfoOK(b, &row, &proj), "C17 "+name+" returns the stored fields of each batch")
 		for j := 0; j < i; j++ {
 			zz.Assert(got[j].Denom != b.Denom, "C17 "+name+" returns no batch twice")
 		}
@@ -123,7 +123,7 @@ func checkBatchList(name string, got []*types.BatchInfo, want func(row *api.Batc
 
 func VerifHarness_C17_BatchesByClass() {
 	zzinv.Install()
-	k, _ := symKeeper()
+	k, _ := zzvSymKeeper()
 	req := &types.QueryBatchesByClassRequest{}
 	zz.NondetInto("req", req)
 	req.Pagination = nil
@@ -136,14 +136,14 @@ func VerifHarness_C17_BatchesByClass() {
 		return
 	}
 	zz.Assert(found, "C17 BatchesByClass succeeds only for a known class")
-	checkBatchList("BatchesByClass", res.Batches, func(row *api.Batch, proj *api.Project) bool { return proj.ClassKey == class.Key },
-		func(denom string) { denomLemmas(denom, class.Id, "") })
+	zzvCheckBatchList("BatchesByClass", res.Batches, func(row *api.Batch, proj *api.Project) bool { return proj.ClassKey == class.Key },
+		func(denom string) { zzvDenomLemmas(denom, class.Id, "") })
 	zz.Reach("query succeeds")
 }
 
 func VerifHarness_C17_BatchesByProject() {
 	zzinv.Install()
-	k, _ := symKeeper()
+	k, _ := zzvSymKeeper()
 	req := &types.QueryBatchesByProjectRequest{}
 	zz.NondetInto("req", req)
 	req.Pagination = nil
@@ -156,14 +156,14 @@ func VerifHarness_C17_BatchesByProject() {
 		return
 	}
 	zz.Assert(found, "C17 BatchesByProject succeeds only for a known project")
-	checkBatchList("BatchesByProject", res.Batches, func(row *api.Batch, proj *api.Project) bool { return row.ProjectKey == project.Key },
-		func(denom string) { denomLemmas(denom, "", project.Id) })
+	zzvCheckBatchList("BatchesByProject", res.Batches, func(row *api.Batch, proj *api.Project) bool { return row.ProjectKey == project.Key },
+		func(denom string) { zzvDenomLemmas(denom, "", project.Id) })
 	zz.Reach("query succeeds")
 }
 
 func VerifHarness_C17_BatchesByIssuer() {
 	zzinv.Install()
-	k, _ := symKeeper()
+	k, _ := zzvSymKeeper()
 	req := &types.QueryBatchesByIssuerRequest{}
 	zz.NondetInto("req", req)
 	req.Pagination = nil
@@ -174,11 +174,11 @@ func VerifHarness_C17_BatchesByIssuer() {
 		zz.Reach("query fails")
 		return
 	}
-	checkBatchList("BatchesByIssuer", res.Batches, func(row *api.Batch, proj *api.Project) bool { return zz.BytesEq(row.Issuer, issuer) }, nil)
+	zzvCheckBatchList("BatchesByIssuer", res.Batches, func(row *api.Batch, proj *api.Project) bool { return zz.BytesEq(row.Issuer, issuer) }, nil)
 	zz.Reach("query succeeds")
 }
 
-func projectInfoOK(p *types.ProjectInfo, row *api.Project, class *api.Class) bool {
+func zzvProjectInfoOK(p *types.ProjectInfo, row *api.Project, class *api.Class) bool {
 	adminOK := zz.Merged(func() bool {
 		a, err := sdk.AccAddressFromBech32(p.Admin)
 		return err == nil && zz.BytesEq(a, row.Admin)
@@ -186,14 +186,14 @@ func projectInfoOK(p *types.ProjectInfo, row *api.Project, class *api.Class) boo
 	return zz.And(zz.And(adminOK, p.ClassId == class.Id), zz.And(zz.And(p.Jurisdiction == row.Jurisdiction, p.Metadata == row.Metadata), p.ReferenceId == row.ReferenceId))
 }
 
-func checkProjectList(name string, got []*types.ProjectInfo, want func(row *api.Project) bool) {
+func zzvCheckProjectList(name string, got []*types.ProjectInfo, want func(row *api.Project) bool) {
 	for i, p := range got {
 		var row api.Project
 		found := zz.OrmLookup0(zzinv.TProject, "Id", &row, p.Id)
 		var class api.Class
 		cf := zz.OrmRow0(zzinv.TClass, &class, row.ClassKey)
 		zz.Assert(zz.And(zz.And(found, cf), want(&row)), "C17 "+name+" returns only projects that satisfy the filter")
-		zz.Assert(projectInfoOK(p, &row, &class), "C17 "+name+" returns the stored fields of each project")
+		zz.Assert(zzvProjectInfoOK(p, &row, &class), "C17 "+name+" returns the stored fields of each project")
 		for j := 0; j < i; j++ {
 			zz.Assert(got[j].Id != p.Id, "C17 "+name+" returns no project twice")
 		}
@@ -211,7 +211,7 @@ func checkProjectList(name string, got []*types.ProjectInfo, want func(row *api.
 
 func VerifHarness_C17_ProjectsByClass() {
 	zzinv.Install()
-	k, _ := symKeeper()
+	k, _ := zzvSymKeeper()
 	req := &types.QueryProjectsByClassRequest{}
 	zz.NondetInto("req", req)
 	req.Pagination = nil
@@ -224,13 +224,13 @@ func VerifHarness_C17_ProjectsByClass() {
 		return
 	}
 	zz.Assert(found, "C17 ProjectsByClass succeeds only for a known class")
-	checkProjectList("ProjectsByClass", res.Projects, func(row *api.Project) bool { return row.ClassKey == class.Key })
+	zzvCheckProjectList("ProjectsByClass", res.Projects, func(row *api.Project) bool { return row.ClassKey == class.Key })
 	zz.Reach("query succeeds")
 }
 
 func VerifHarness_C17_ProjectsByAdmin() {
 	zzinv.Install()
-	k, _ := symKeeper()
+	k, _ := zzvSymKeeper()
 	req := &types.QueryProjectsByAdminRequest{}
 	zz.NondetInto("req", req)
 	req.Pagination = nil
@@ -241,13 +241,13 @@ func VerifHarness_C17_ProjectsByAdmin() {
 		zz.Reach("query fails")
 		return
 	}
-	checkProjectList("ProjectsByAdmin", res.Projects, func(row *api.Project) bool { return zz.BytesEq(row.Admin, admin) })
+	zzvCheckProjectList("ProjectsByAdmin", res.Projects, func(row *api.Project) bool { return zz.BytesEq(row.Admin, admin) })
 	zz.Reach("query succeeds")
 }
 
 func VerifHarness_C17_ProjectsByReferenceId() {
 	zzinv.Install()
-	k, _ := symKeeper()
+	k, _ := zzvSymKeeper()
 	req := &types.QueryProjectsByReferenceIdRequest{}
 	zz.NondetInto("req", req)
 	req.Pagination = nil
@@ -257,13 +257,13 @@ func VerifHarness_C17_ProjectsByReferenceId() {
 		zz.Reach("query fails")
 		return
 	}
-	checkProjectList("ProjectsByReferenceId", res.Projects, func(row *api.Project) bool { return row.ReferenceId == req.ReferenceId })
+	zzvCheckProjectList("ProjectsByReferenceId", res.Projects, func(row *api.Project) bool { return row.ReferenceId == req.ReferenceId })
 	zz.Reach("query succeeds")
 }
 
 func VerifHarness_C17_ClassesByAdmin() {
 	zzinv.Install()
-	k, _ := symKeeper()
+	k, _ := zzvSymKeeper()
 	req := &types.QueryClassesByAdminRequest{}
 	zz.NondetInto("req", req)
 	req.Pagination = nil
@@ -301,7 +301,7 @@ func VerifHarness_C17_ClassesByAdmin() {
 
 func VerifHarness_C17_BalancesByBatch() {
 	zzinv.Install()
-	k, _ := symKeeper()
+	k, _ := zzvSymKeeper()
 	req := &types.QueryBalancesByBatchRequest{}
 	zz.NondetInto("req", req)
 	req.Pagination = nil
@@ -339,7 +339,7 @@ func VerifHarness_C17_BalancesByBatch() {
 // single-entity queries return the stored values
 func VerifHarness_C17_Balance() {
 	zzinv.Install()
-	k, _ := symKeeper()
+	k, _ := zzvSymKeeper()
 	req := &types.QueryBalanceRequest{}
 	zz.NondetInto("req", req)
 	res, err := k.Balance(zz.Context(), req)
@@ -363,7 +363,7 @@ func VerifHarness_C17_Balance() {
 
 func VerifHarness_C17_Supply() {
 	zzinv.Install()
-	k, _ := symKeeper()
+	k, _ := zzvSymKeeper()
 	req := &types.QuerySupplyRequest{}
 	zz.NondetInto("req", req)
 	res, err := k.Supply(zz.Context(), req)
